@@ -223,6 +223,11 @@ func repetitionKinds(u *Universe) (map[int64]string, string) {
 		}
 	}
 	if g == nil {
+		// not loaded by the constructor (a helper chooses the leaf's repetition): the table is still the package-level slice of
+		// functions of the runtime, found by type
+		g = repetitionTable(u)
+	}
+	if g == nil {
 		return nil, "parquet.fieldFuncs not found"
 	}
 	schPkg := u.Pkgs[rtPath].Imports[schPath]
@@ -321,6 +326,132 @@ func repetitionKinds(u *Universe) (map[int64]string, string) {
 		return nil, "fieldFuncs initialiser not understood"
 	}
 	return out, ""
+}
+
+// repetitionTable: the package-level slice of functions of the runtime (the repetition setters indexed by repetition code);
+// nil unless there is exactly one.
+func repetitionTable(u *Universe) *ssa.Global {
+	p := u.SSAPkgs[rtPath]
+	if p == nil {
+		return nil
+	}
+	var found []*ssa.Global
+	for _, m := range p.Members {
+		gl, ok := m.(*ssa.Global)
+		if !ok {
+			continue
+		}
+		if sl, ok := gl.Type().(*types.Pointer).Elem().Underlying().(*types.Slice); ok {
+			if _, isFn := sl.Elem().Underlying().(*types.Signature); isFn {
+				found = append(found, gl)
+			}
+		}
+	}
+	if len(found) != 1 {
+		return nil
+	}
+	return found[0]
+}
+
+// laLeafKind (C15, C02): the repetition the footer declares for an optional/repeated column's leaf is the one its own last
+// repetition code selects in the table of repetition setters. Schema() hands out the field the constructor stores (FT schema);
+// here: the constructor stores table[types[len(types)-1]] and nothing else. A leaf declared with another repetition than the
+// code the levels were computed from (a required leaf in an optional group declared OPTIONAL) is written and read back
+// unchanged by the generating struct, and misread by a struct regenerated from the footer.
+func laLeafKind(c *Ctx, rule string) {
+	r, u := c.R, c.U
+	key := "parquet.NewOptionalField leaf repetition"
+	r.count(rule+"/constructors", 1)
+	ctor := u.Func(rtPath, "NewOptionalField")
+	tbl := repetitionTable(u)
+	if ctor == nil || tbl == nil {
+		r.undecided(rule, key, "", "constructor of optional columns or the table of repetition setters not found")
+		return
+	}
+	// the field: the function-typed field of OptionalField whose signature is the table's element type
+	elem := tbl.Type().(*types.Pointer).Elem().Underlying().(*types.Slice).Elem()
+	var leafF *types.Var
+	if o := u.Pkgs[rtPath].Types.Scope().Lookup("OptionalField"); o != nil {
+		if st, ok := o.Type().Underlying().(*types.Struct); ok {
+			for i := 0; i < st.NumFields(); i++ {
+				if types.Identical(st.Field(i).Type(), elem) {
+					if leafF != nil {
+						r.undecided(rule, key, u.Pos(ctor.Pos()), "OptionalField has several fields of the repetition setter's type")
+						return
+					}
+					leafF = st.Field(i)
+				}
+			}
+		}
+	}
+	if leafF == nil {
+		r.undecided(rule, key, u.Pos(ctor.Pos()), "OptionalField has no field of the repetition setter's type")
+		return
+	}
+	var typesParam *ssa.Parameter
+	for _, p := range ctor.Params {
+		if sl, ok := p.Type().Underlying().(*types.Slice); ok {
+			if b, ok := sl.Elem().Underlying().(*types.Basic); ok && b.Info()&types.IsInteger != 0 {
+				typesParam = p
+			}
+		}
+	}
+	if typesParam == nil {
+		r.undecided(rule, key, u.Pos(ctor.Pos()), "the constructor has no parameter holding repetition codes")
+		return
+	}
+	// is v the last element of the codes: load(&codes[len(codes)-1])
+	isLast := func(v ssa.Value) bool {
+		v = stripConvert(v)
+		ld, ok := v.(*ssa.UnOp)
+		if !ok || ld.Op != token.MUL {
+			return false
+		}
+		ia, ok := ld.X.(*ssa.IndexAddr)
+		if !ok || ia.X != ssa.Value(typesParam) {
+			return false
+		}
+		bo, ok := stripConvert(ia.Index).(*ssa.BinOp)
+		if !ok || bo.Op != token.SUB || !constIs(bo.Y, 1) {
+			return false
+		}
+		call, ok := stripConvert(bo.X).(*ssa.Call)
+		if !ok {
+			return false
+		}
+		b, ok := call.Call.Value.(*ssa.Builtin)
+		return ok && b.Name() == "len" && len(call.Call.Args) == 1 && call.Call.Args[0] == ssa.Value(typesParam)
+	}
+	stores := 0
+	var bad []string
+	for _, b := range ctor.Blocks {
+		for _, ins := range b.Instrs {
+			st, ok := ins.(*ssa.Store)
+			if !ok || fieldOf(st.Addr) != leafF {
+				continue
+			}
+			stores++
+			good := false
+			if ld, ok := st.Val.(*ssa.UnOp); ok && ld.Op == token.MUL {
+				if ia, ok := ld.X.(*ssa.IndexAddr); ok {
+					if tl, ok := ia.X.(*ssa.UnOp); ok && tl.Op == token.MUL && tl.X == ssa.Value(tbl) && isLast(ia.Index) {
+						good = true
+					}
+				}
+			}
+			if !good {
+				bad = append(bad, fmt.Sprintf("%s is %s at %s", leafF.Name(), symExpr(st.Val, 0), u.Pos(st.Pos())))
+			}
+		}
+	}
+	switch {
+	case stores == 0:
+		r.undecided(rule, key, u.Pos(ctor.Pos()), "the constructor does not store the leaf's repetition setter itself")
+	case len(bad) > 0:
+		r.undecided(rule, key, u.Pos(ctor.Pos()), "the leaf's repetition is not recognisably the table entry of the column's last repetition code ("+tbl.Name()+"[types[len(types)-1]]): "+strings.Join(bad, "; ")+" — the footer may declare the leaf with another repetition than the one its levels are computed from")
+	default:
+		r.ok(rule, key, u.Pos(ctor.Pos()), leafF.Name()+" = "+tbl.Name()+"[last repetition code of the column]")
+	}
 }
 
 func setString(m map[int64]bool, names map[int64]string) string {
